@@ -114,6 +114,25 @@ pub open spec fn refused(cur: BedEntry, next: Option<&BedEntry>, chrom_length: u
     ||| cur.start > cur.end
     ||| cur.start >= chrom_length
     ||| (next.is_some() && cur.start > next.unwrap().start)
+    // C02 (accepted => can be read back): the format cannot hold a (0,0) record (readers treat it as
+    // invalid) nor a NUL inside the NUL-terminated rest of the line
+    ||| (cur.start == 0 && cur.end == 0)
+    ||| has_nul_spec(cur.rest@)
+}
+pub open spec fn has_nul_spec(s: Seq<u8>) -> bool { exists|i: int| 0 <= i < s.len() && s[i] == 0 }
+/// `rest.contains('\0')` on the String (R11: rest is bytes here; U+0000 is the single byte 0 in UTF-8)
+fn has_nul(v: &Vec<u8>) -> (r: bool)
+    ensures r == has_nul_spec(v@)
+{
+    let mut i: usize = 0;
+    while i < v.len()
+        invariant i <= v.len(), forall|k: int| 0 <= k < i ==> v@[k] != 0,
+        decreases v.len() - i,
+    {
+        if v[i] == 0 { return true; }
+        i = i + 1;
+    }
+    false
 }
 pub open spec fn starts_sorted(s: Seq<BedEntry>) -> bool {
     forall|i: int, j: int| 0 <= i <= j < s.len() ==> (#[trigger] s[i]).start <= (#[trigger] s[j]).start
@@ -260,6 +279,14 @@ fn process_val(
         return Err(ProcessDataError::InvalidInput(err_msg()));
     }
     if current_val.start >= chrom_length {
+        return Err(ProcessDataError::InvalidInput(err_msg()));
+    }
+    // A bigBed cannot hold these: readers treat a record with start and end both 0 as invalid,
+    // and the rest of the line is stored NUL-terminated
+    if current_val.start == 0 && current_val.end == 0 {
+        return Err(ProcessDataError::InvalidInput(err_msg()));
+    }
+    if has_nul(&current_val.rest) {
         return Err(ProcessDataError::InvalidInput(err_msg()));
     }
     match next_val {
